@@ -64,6 +64,23 @@ def _output_case(tree, vals):
     return {"op": "model", "xml": g.output_model_xml(tree, [v for v, _, _ in vals]), "calls": calls}
 
 
+def _expression_types(xml, rng):
+    """The optional typeRef attribute of the EXPRESSION elements (here: literalExpression), set to the variable's own type, to
+    another type of the document, to a built-in type or to a name that does not resolve. The statement types inputs by their
+    input data and results by the output VARIABLE; what the expression element says about itself must not change either."""
+    import re as _re
+
+    names = sorted(set(_re.findall(r'<itemDefinition[^>]* name="([^"]+)"', xml)) | set(_re.findall(r'typeRef="([^"]+)"', xml)))
+    pool = names + ["number", "string", "boolean", "date", "Any", "tNoSuchType"]
+
+    def one(m):
+        if rng.random() < 0.35:
+            return m.group(0)
+        return '<literalExpression typeRef="%s">' % rng.choice(pool)
+
+    return _re.sub(r"<literalExpression>", one, xml)
+
+
 def _dead(rep, res, case, side, tree):
     """True when the whole model case produced no per-call results (and reports why)."""
     if "harness_error" in res or res.get("missing"):
@@ -294,12 +311,18 @@ def run(rep, tier, seed):
             rep.bump("values_by_kind:" + kind)
             rep.bump("values_by_position:%s:%s" % (g.node_kind(at, False), kind))
         cases.append(_input_case(tree, vals))
+        if len(cases) % 3 == 0:
+            cases[-1]["xml"] = _expression_types(cases[-1]["xml"], vrng)
+            rep.bump("models_whose_expression_elements_carry_a_typeRef")
         if len(cases) % 4 < 2:
             cases[-1]["xml"] = xmlvar.vary(cases[-1]["xml"], vrng)[0]  # the same model in another XML spelling (lib/xmlvar.py)
             rep.bump("input_models_in_a_varied_xml_spelling")
         meta.append(("input", ti, vals))
         for part in chunks(vals, CHUNK):
             cases.append(_output_case(tree, part))
+            if len(cases) % 3 == 0:
+                cases[-1]["xml"] = _expression_types(cases[-1]["xml"], vrng)
+                rep.bump("models_whose_expression_elements_carry_a_typeRef")
             meta.append(("output", ti, part))
     rep.extra["tree_shape_classes_run"] = len({g.tree_shape(trees[ti]) for ti in picked})
     rep.extra["values_generated"] = n_values
